@@ -430,7 +430,7 @@ impl Scenario for RoundTripScenario {
     fn describe(&self) -> ScenarioInfo {
         ScenarioInfo {
             level: "exploration",
-            rule: "one seeded run = a seeded dictionary (matrix/raw/dual) and a history of 3-12 events: RoundTrip(replica) through seeded short-write/EINTR sinks and short-read/EINTR readers (adds a replica, also of a replica that is itself a round trip), LoadUser/ClearUser/Map applied to every replica, AddRebuilt (dual only: rebuild from sources under another template split and replay the history), Observe (full token tuples for probes x option sets and every id-pair connection cost must be equal across replicas), WriteAll (all round-trip replicas write identical bytes; returned count == bytes accepted), FailWrite/FailRead (hard fault at a seeded offset must give Err). Added later (all three scenarios of this file): 1 world in 250 with 182-300 ids per side (> 32768 matrix cells), 1 in 2500 with 65536 ids on one side, 1 in 40 with a side that has the BOS/EOS id only, 1 in 60 with 250-257 homographs of one surface and a feature of 250-252 bytes, 1 lexicon row in 60 with a line break inside a quoted feature field, 1 user lexicon in 150 larger than 64 KiB (filler rows first), 1 in 5 with rows equal to a system row in surface, ids and cost, 1 in 30 with a surface containing CR LF; mapping lists are handed over as vectors or as lazy iterators of unknown length. distinct_nontrivial = distinct plan hashes of runs with >= 1 observation after >= 1 round trip or state change",
+            rule: "one seeded run = a seeded dictionary (matrix/raw/dual) and a history of 3-12 events: RoundTrip(replica) through seeded short-write/EINTR sinks and short-read/EINTR readers (adds a replica, also of a replica that is itself a round trip), LoadUser/ClearUser/Map applied to every replica, AddRebuilt (dual only: rebuild from sources under another template split and replay the history), Observe (full token tuples for probes x option sets and every id-pair connection cost must be equal across replicas), WriteAll (all round-trip replicas write identical bytes; returned count == bytes accepted), FailWrite/FailRead (hard fault at a seeded offset must give Err). Added later (all three scenarios of this file): 1 world in 250 with 182-300 ids per side (> 32768 matrix cells), 1 in 2500 with 65536 ids on one side, 1 in 40 with a side that has the BOS/EOS id only, 1 in 60 with 250-257 homographs of one surface and a feature of 250-252 bytes, 1 lexicon row in 60 with a line break inside a quoted feature field, 1 user lexicon in 150 larger than 64 KiB (filler rows first), 1 in 5 with rows equal to a system row in surface, ids and cost, 1 in 30 with a surface containing CR LF; mapping lists are handed over as vectors or as lazy iterators of unknown length. Round 5 (C08): histories also save and reload the dictionary (write/read) and load an empty user-lexicon file (an error, or a user lexicon without words - never the previous words). distinct_nontrivial = distinct plan hashes of runs with >= 1 observation after >= 1 round trip or state change",
             assumptions: vec![
                 "the seeded runs use the portable build; the portable<->AVX2 interchange is decided by the two-build exchange step of ./check (120 cases per direction in quick, 1500 in thorough; skipped with a note on CPUs without AVX2), reported under cross_build_exchange",
                 "observational equality is over seeded probe sentences and all id pairs, not all sentences",
@@ -905,11 +905,15 @@ impl Scenario for UserLexScenario {
         }
         let n = 2 + rng.usize(7);
         for _ in 0..n {
-            let op = match rng.below(11) {
+            let op = match rng.below(12) {
                 0..=3 => Op::new("Load")
                     .n(&[rng.range(0, 3)])
                     .fault("src", gen_benign(rng, 64)),
                 4 => Op::new("Clear"),
+                // the dictionary (with whatever user lexicon it holds) is saved and loaded again
+                11 if rng.chance(1, 2) => Op::new("WriteRead"),
+                // a user lexicon file without any row
+                11 => Op::new("LoadEmpty"),
                 // a remapping while a user lexicon is (or is not) attached
                 10 => map_op(rng, &info),
                 5 | 6 => Op::new("LoadBad").n(&[rng.range(0, 7), rng.range(0, 3)]),
@@ -957,6 +961,40 @@ impl Scenario for UserLexScenario {
                     }
                     current = Some(csv);
                     loads += 1;
+                    ctx.state_changes += 1;
+                    ctx.event(&op.brief(), "ok");
+                }
+                "LoadEmpty" => {
+                    // an empty file either is an error (the pinned tree) or replaces the user
+                    // lexicon by one without words; it never leaves the previous words in place
+                    let none = Fault::default();
+                    match load_user(d.take().unwrap(), b"", &none, ctx) {
+                        Ok(Ok(d2)) => {
+                            d = Some(d2);
+                            ctx.event(&op.brief(), "Ok (no user words)");
+                        }
+                        Ok(Err(_)) => {
+                            let mut h = maps.clone();
+                            h.push(HEvent::User(None));
+                            d = Some(rebuild("C08.restart", plan, order_seed, &h, ctx)?);
+                            ctx.event(&op.brief(), "Err; rebuilt without user lexicon");
+                        }
+                        Err(p) => return Err(panic_violation("C08.empty", "an empty user lexicon", &p)),
+                    }
+                    if current.is_some() {
+                        ctx.count("probe.empty_file_over_user_lexicon");
+                    }
+                    current = None;
+                    ctx.state_changes += 1;
+                }
+                "WriteRead" => {
+                    let none = Fault::default();
+                    let (r, image) = crate::dictops::write_image(d.as_ref().unwrap(), &none, ctx);
+                    must("C08.write", &op.brief(), r)?;
+                    d = Some(must("C08.read", &op.brief(), crate::dictops::read_image(&image, &none, ctx))?);
+                    if current.is_some() {
+                        ctx.count("probe.write_read_with_user_lexicon");
+                    }
                     ctx.state_changes += 1;
                     ctx.event(&op.brief(), "ok");
                 }
@@ -1125,6 +1163,8 @@ impl Scenario for UserLexScenario {
                 "probe.id_65535_in_use",
                 "probe.user_csv_over_64k",
                 "probe.replace",
+                "probe.write_read_with_user_lexicon",
+                "probe.empty_file_over_user_lexicon",
                 "probe.clear",
                 "probe.clear_when_none",
                 "probe.bad_on_mapped",
